@@ -9,34 +9,163 @@ import Precis.Lemmas.TableStep
 namespace Precis.C11
 open Precis Precis.Step
 
+theorem width_toList : Gen.Prof.wideNarrowMapping.toList = Gen.Prof.wideNarrowMappingL := by
+  simp [Gen.Prof.wideNarrowMapping]
+
+theorem width_sorted :
+    sortedTable (Gen.Prof.wideNarrowMapping.toList.map (·.1)) = true := by
+  rw [width_toList]; exact Facts.sorted_width
+
+set_option maxRecDepth 1000000 in
+theorem width_fuel :
+    (toStepV Gen.Prof.wideNarrowMappingL).length + Gen.Ucd16.widthStep.length ≤ 2000 := by
+  decide +kernel
+
 /-- the generated table, searched the way the library searches it, is the `<wide>`/`<narrow>`
 decomposition data of UnicodeData 16.0.0 (independent parse), for every code point -/
 theorem width_table_is_ucd16 (cp : Nat) :
     getDecompositionMapping cp = eval none Gen.Ucd16.widthStep cp := by
-  sorry
+  unfold getDecompositionMapping
+  rw [lookupVal_eq_eval _ width_sorted cp, width_toList]
+  exact agree_eval 2000 _ _ _ _ width_fuel Facts.width_agree cp
+
+theorem getDecomp_eq_lookupL (cp : Nat) :
+    getDecompositionMapping cp = lookupL cp Gen.Prof.wideNarrowMappingL := by
+  unfold getDecompositionMapping
+  rw [lookupVal_eq_lookupL _ cp width_sorted, width_toList]
+
+theorem lookupL_mem {V} (cp : Nat) (l : List (Cps × V)) (v : V) (h : lookupL cp l = some v) :
+    ∃ e ∈ l, e.2 = v := by
+  induction l with
+  | nil => simp [lookupL] at h
+  | cons x r ih =>
+    obtain ⟨e, w⟩ := x
+    simp only [lookupL] at h
+    split at h
+    · exact ⟨(e, w), by simp, by simpa using h⟩
+    · obtain ⟨e', he', hv⟩ := ih h
+      exact ⟨e', by simp [he'], hv⟩
+
+/-- every value of the table is a scalar value and has no mapping itself -/
+theorem getDecomp_value (c d : Nat) (h : getDecompositionMapping c = some d) :
+    isScalar d = true ∧ getDecompositionMapping d = none := by
+  rw [getDecomp_eq_lookupL] at h
+  obtain ⟨e, he, hv⟩ := lookupL_mem _ _ _ h
+  have := List.all_eq_true.mp Facts.width_values_ok e he
+  rw [hv] at this
+  rw [getDecomp_eq_lookupL]
+  simpa using this
+
+/-- what the loop does to one character -/
+def widthMapChar (c : Nat) : Nat := (getDecompositionMapping c).getD c
+
+theorem widthMapChar_eq (c : Nat) : widthMapChar c = Spec.widthMap16 c := by
+  unfold widthMapChar Spec.widthMap16
+  rw [width_table_is_ucd16]
+
+/-! unfolding equations of the loop (the equation compiler's own lemmas cannot be generated: their
+definitional check tries to evaluate the table search) -/
+theorem widthLoop_nil (res : List Nat) : widthLoop [] res = .ok res := by rfl
+
+set_option maxRecDepth 100000 in
+theorem widthLoop_cons (c : Nat) (r res : List Nat) :
+    widthLoop (c :: r) res =
+      match getDecompositionMapping c with
+      | some d => if isScalar d then widthLoop r (res ++ [d]) else .err .undefined
+      | none => widthLoop r (res ++ [c]) := by rfl
+
+theorem widthLoop_eq (suf pre : List Nat) :
+    widthLoop suf pre = .ok (pre ++ suf.map widthMapChar) := by
+  induction suf generalizing pre with
+  | nil => rw [widthLoop_nil]; simp
+  | cons c r ih =>
+    rw [widthLoop_cons]
+    cases h : getDecompositionMapping c with
+    | none =>
+      have : widthMapChar c = c := by unfold widthMapChar; rw [h]; rfl
+      rw [ih, List.map_cons, this]; simp
+    | some d =>
+      have hs := (getDecomp_value c d h).1
+      have : widthMapChar c = d := by unfold widthMapChar; rw [h]; rfl
+      rw [List.map_cons, this]
+      show (if isScalar d = true then widthLoop r (pre ++ [d]) else Res.err Err.undefined) = _
+      rw [if_pos hs, ih]; simp
+
+theorem map_id_of_no_mapping (l : List Nat) (h : ∀ c ∈ l, hasWidthMapping c = false) :
+    l.map widthMapChar = l := by
+  induction l with
+  | nil => rfl
+  | cons c r ih =>
+    have hc := h c (by simp)
+    unfold hasWidthMapping at hc
+    have hc' : getDecompositionMapping c = none := by
+      cases h' : getDecompositionMapping c with
+      | none => rfl
+      | some d => rw [h'] at hc; simp at hc
+    have : widthMapChar c = c := by unfold widthMapChar; rw [hc']; rfl
+    rw [List.map_cons, ih (fun x hx => h x (by simp [hx])), this]
+
+theorem specWidth_eq_map (s : List Nat) : Spec.specWidth s = s.map widthMapChar := by
+  unfold Spec.specWidth
+  have : Spec.widthMap16 = widthMapChar := funext (fun c => (widthMapChar_eq c).symm)
+  rw [this]
 
 /-- the rule is `map` of the per-character mapping: position-independent, nothing else changes -/
 theorem width_rule_eq (s : List Nat) : widthMappingRule s = .ok (Spec.specWidth s) := by
-  sorry
+  unfold widthMappingRule
+  rw [specWidth_eq_map]
+  cases h : findByte hasWidthMapping s with
+  | none =>
+    have := (findByte_none_iff _ _).mp h
+    simp only
+    rw [map_id_of_no_mapping s this]
+  | some pos =>
+    obtain ⟨h1, h2⟩ := slice_at_find _ _ _ h
+    simp only [h1, h2]
+    rw [widthLoop_eq]
+    have hpre : (s.takeWhile (fun c => !hasWidthMapping c)).map widthMapChar
+        = s.takeWhile (fun c => !hasWidthMapping c) := by
+      apply map_id_of_no_mapping
+      intro c hc
+      have := List.all_eq_true.mp (List.all_takeWhile (l := s) (p := fun c => !hasWidthMapping c)) c hc
+      simpa using this
+    conv => rhs; rw [← List.takeWhile_append_dropWhile (p := fun c => !hasWidthMapping c) (l := s)]
+    rw [List.map_append, hpre]
 
 /-- characters without a wide/narrow mapping (all other compatibility characters included) are kept -/
 theorem width_keeps_others (s : List Nat) (i : Nat) (h : i < s.length)
     (hn : eval none Gen.Ucd16.widthStep s[i] = none) :
     ∃ h' : i < (Spec.specWidth s).length, (Spec.specWidth s)[i] = s[i] := by
-  sorry
+  refine ⟨by simpa [Spec.specWidth] using h, ?_⟩
+  simp [Spec.specWidth, Spec.widthMap16, hn]
+
+theorem widthMap16_idem (c : Nat) : Spec.widthMap16 (Spec.widthMap16 c) = Spec.widthMap16 c := by
+  rw [← widthMapChar_eq, ← widthMapChar_eq]
+  cases h : getDecompositionMapping c with
+  | none =>
+    have : widthMapChar c = c := by unfold widthMapChar; rw [h]; rfl
+    rw [this, this]
+  | some d =>
+    have h1 : widthMapChar c = d := by unfold widthMapChar; rw [h]; rfl
+    have h2 : widthMapChar d = d := by unfold widthMapChar; rw [(getDecomp_value c d h).2]; rfl
+    rw [h1, h2]
 
 /-- applying the mapping twice equals applying it once -/
 theorem width_idem (s : List Nat) : Spec.specWidth (Spec.specWidth s) = Spec.specWidth s := by
-  sorry
+  simp [Spec.specWidth, widthMap16_idem]
 
 theorem width_rule_idem (s t : List Nat) (h : widthMappingRule s = .ok t) : widthMappingRule t = .ok t := by
-  sorry
+  rw [width_rule_eq] at h
+  injection h with h
+  subst h
+  rw [width_rule_eq, width_idem]
 
 /-- never a panic, never the typed `Undefined` error on the generated data -/
 theorem width_rule_total (s : List Nat) : ∃ t, widthMappingRule s = .ok t := ⟨_, width_rule_eq s⟩
 
+set_option maxRecDepth 1000000 in
 /-- non-vacuity: a string where the first mapped character follows a 3-byte character -/
 example : widthMappingRule [0x65E5, 0xFF21, 0xB5, 0xFF76] = .ok [0x65E5, 0x41, 0xB5, 0x30AB] := by
-  sorry
+  rw [width_rule_eq]; decide +kernel
 
 end Precis.C11
